@@ -46,7 +46,8 @@ def adrain (tie : Bool) : Nat → ATracker → Option Nat → Bool → ATracker 
               adrain tie fuel { t with buf := b } (minKey? (keys b)) added
           else
             let b := erase t.buf a
-            adrain tie fuel { k := t.k + chunk.length, payload := t.payload ++ chunk, buf := b } (minKey? (keys b)) true
+            adrain tie fuel { k := t.k + chunk.length, payload := t.payload ++ chunk, buf := b } (minKey? (keys b))
+              (added || !chunk.isEmpty)
         else (t, added)
 
 /-- absolute start under which a segment at offset `off` is stored when the delivery point is `k` -/
